@@ -462,6 +462,21 @@ func (e *Enc) atReturn(fr *Frame, x *ssa.Return, vs []Val) {
 		g := e.safeBool(ctx, en, "ensures")
 		e.addObligation("post", fmt.Sprintf("#%d", i), fr.curReach, g, en.Text)
 	}
+	if e.fc.SingleExit && fr.isTop {
+		// single-exit: every return statement but the last one in source order (for a function without
+		// results: the implicit one at the end) must be unreachable
+		n := 0
+		for _, b := range fr.fn.Blocks {
+			for _, in := range b.Instrs {
+				if _, ok := in.(*ssa.Return); ok {
+					n++
+				}
+			}
+		}
+		if returnOrdinal(fr.fn, x) < n-1 {
+			e.addObligation("shape", "single-exit", fr.curReach, False, "the function leaves only through its last return statement")
+		}
+	}
 	isNil, hasNil := e.nilnessResult(fr.fn, results)
 	for i := range e.fc.Sites {
 		st := &e.fc.Sites[i]
